@@ -35,7 +35,8 @@ T_Sign ==
 T_Validate ==
   /\ IsEv("validate")
   /\ LET e == Rec[l]
-     IN /\ ValidatorOctets(e.sig, e.cur) = e.res.buf
+     IN /\ e.sigc = e.sig          \* conversions (flatten / octets) kept every RRSIG field
+        /\ ValidatorOctets(e.sig, e.cur) = e.res.buf
         /\ SignedData(e.sig, e.cur) = e.res.buf
         /\ (~e.altered) => e.res.buf = signed
         /\ e.altered => e.res.buf # signed
